@@ -1,3 +1,60 @@
-(** placeholder *)
-From Xds Require Import Model.SysCheck.
-Theorem C02_placeholder : True. Proof. exact I. Qed.
+(** C02 — Each response is ACKed or NACKed correctly; a NACK changes nothing.
+    Statements only; proofs are [exact] of lemmas in Proofs/SysProofs.v.  [handle_resp] is the
+    model of handleResponse/handleLDS..handleNDS + updateAndACK + UpdateResource (Model/Sys.v);
+    whether a payload decodes is [decode_payload] (Model/Decode.v, characterised by C13). *)
+From Xds Require Import Model.Base Model.Fqdn Model.Proto Model.Decode Model.Pick Model.Route Model.Mw Model.Sys Proofs.SysProofs.
+Open Scope string_scope.
+
+(** A rejected response of a subscribed type: exactly one reply (when the sender has a stream) echoing the
+    nonce, with the LAST ACCEPTED version and an error detail, listing the interest set; and the resulting
+    state is the old state with the nonce of that type replaced - nothing else. *)
+Theorem C02_nack : forall c o s v n p ws,
+  s_closed s = false -> tget (payload_type p) (s_watched s) = Some ws -> decode_payload o p = None ->
+  let t := payload_type p in
+  handle_resp c o s v n p =
+    (set_ack s t None n,
+     emit (set_ack s t None n) {| q_type := t; q_version := tget t (s_version s); q_nonce := n; q_names := ws; q_error := true |}, []).
+Proof. exact nack_changes_nothing. Qed.
+Print Assumptions C02_nack.
+
+Theorem C02_nack_no_effect : forall s t n,
+  let s' := set_ack s t None n in
+  s_cache s' = s_cache s /\ s_table s' = s_table s /\ s_version s' = s_version s /\ s_watched s' = s_watched s /\
+  s_meta s' = s_meta s /\ s_has_cache s' = s_has_cache s /\ s_closed s' = s_closed s /\ s_stream s' = s_stream s /\
+  forall t', tget t' (s_nonce s') = if rtype_eqb t' t then n else tget t' (s_nonce s).
+Proof. exact set_ack_none_keeps. Qed.
+Print Assumptions C02_nack_no_effect.
+
+(** An accepted response: one reply with the response's version and nonce, no error detail. *)
+Theorem C02_ack : forall c o s v n p ws d,
+  s_closed s = false -> tget (payload_type p) (s_watched s) = Some ws -> decode_payload o p = Some d ->
+  let t := payload_type p in
+  snd (fst (handle_resp c o s v n p)) =
+    emit (set_ack s t (Some v) n) {| q_type := t; q_version := v; q_nonce := n; q_names := ws; q_error := false |}.
+Proof. exact ack_reply. Qed.
+Print Assumptions C02_ack.
+
+Theorem C02_at_most_one_reply : forall c o s v n p, (length (snd (fst (handle_resp c o s v n p))) <= 1)%nat.
+Proof. exact resp_at_most_one_reply. Qed.
+Print Assumptions C02_at_most_one_reply.
+
+(** Responses of never-subscribed types and of unknown type urls are neither acknowledged nor applied. *)
+Theorem C02_unsubscribed_ignored : forall c o s v n p,
+  tget (payload_type p) (s_watched s) = None -> handle_resp c o s v n p = (s, [], []).
+Proof. exact resp_unsubscribed_ignored. Qed.
+Print Assumptions C02_unsubscribed_ignored.
+
+Theorem C02_unknown_ignored : forall c o s, step c o s ORespUnknown = (s, no_out).
+Proof. exact resp_unknown_ignored. Qed.
+Print Assumptions C02_unknown_ignored.
+
+Example C02_example :
+  let c := {| sc_nds_required := false; sc_f := {| f_ns := "default"; f_dom := "cluster.local" |} |} in
+  let o := mk_oracle_route [] [] in
+  let h := [OLookup TCl "c1"; OResp "v1" "n1" (PCds [RGood {| cl_name := "c1"; cl_type := Some 3; cl_lb := 0; cl_eds_service := None; cl_outlier := None; cl_load := None |}]);
+            OResp "v2" "n2" (PCds [RUnparsable])] in
+  let '(s, outs) := run c o init_state h in
+  tget TCl (s_version s) = "v1" /\ tget TCl (s_nonce s) = "n2" /\ map fst (tget TCl (s_cache s)) = ["c1"] /\
+  map (fun ot => map (fun sq => (q_version (snd sq), q_nonce (snd sq), q_error (snd sq))) (o_reqs ot)) outs =
+    [[("", "", false)]; [("v1", "n1", false)]; [("v1", "n2", true)]].
+Proof. exact C02_example_proof. Qed.
